@@ -47,6 +47,8 @@ pub struct Scn {
     /// delay injected between a guard's decrement and its notification (late availability notification)
     pub notify_delay_ms: u64,
     pub probes_after: usize,
+    /// client threads keep connecting while the fault happens (connections can enter a dying worker's queue)
+    pub hammer: bool,
 }
 
 impl Scn {
@@ -83,12 +85,13 @@ impl Scn {
             replacement_delay_ms: *r.pick(&[0, 0, 300, 500]),
             notify_delay_ms: *r.pick(&[0, 0, 150, 400]),
             probes_after: 1 + r.usize(4),
+            hammer: r.chance(1, 3),
         }
     }
     pub fn shape(&self) -> String {
         format!(
-            "w{} l{} {:?} victims{:?} load{:?} close{:?} repl{}ms notify{}ms probes{}",
-            self.workers, self.limit, self.rt, self.victims, self.load, self.close_victim_conns, self.replacement_delay_ms, self.notify_delay_ms, self.probes_after
+            "w{} l{} {:?} victims{:?} load{:?} close{:?} repl{}ms notify{}ms probes{} hammer{}",
+            self.workers, self.limit, self.rt, self.victims, self.load, self.close_victim_conns, self.replacement_delay_ms, self.notify_delay_ms, self.probes_after, self.hammer as u8
         )
     }
     pub fn to_json(&self) -> Value {
@@ -120,6 +123,7 @@ fn regression(i: u64) -> Option<Scn> {
         replacement_delay_ms: [500, 300, 700][(i % 3) as usize],
         notify_delay_ms: [400, 250, 0][(i / 12 % 3) as usize],
         probes_after: 3,
+        hammer: false,
     })
 }
 
@@ -140,6 +144,8 @@ pub struct Seen {
     pub quiescent_points: u64,
     pub stops_completed: u64,
     pub undetected_fault_scenarios: u64,
+    pub dead_worker_states: u64,
+    pub hammer_scenarios: u64,
 }
 
 pub enum Outcome {
@@ -224,6 +230,9 @@ pub fn run_scenario(scn: &Scn, seen: &mut Seen) -> Outcome {
     if scn.victims.len() > 1 {
         seen.double_faults += 1;
     }
+    if scn.hammer {
+        seen.hammer_scenarios += 1;
+    }
 
     let body = (|| -> Result<(), String> {
         // ---- 1. warm-up: one finished connection per worker gives the idx -> instance map
@@ -302,7 +311,30 @@ pub fn run_scenario(scn: &Scn, seen: &mut Seen) -> Outcome {
             thread::sleep(Duration::from_millis(5));
         }
 
-        // ---- 4. faults
+        // ---- 4. faults (optionally while client threads keep connecting)
+        let hammer_stop = std::sync::Arc::new(std::sync::atomic::AtomicBool::new(false));
+        let mut hammers = Vec::new();
+        if scn.hammer {
+            for t in 0..4u64 {
+                let addr = run.addrs[0].clone();
+                let stop = hammer_stop.clone();
+                let mut r = Rng::new(scn.seed ^ (t + 1) * 131);
+                hammers.push(thread::spawn(move || {
+                    let mut v = Vec::new();
+                    let t0 = Instant::now();
+                    while !stop.load(std::sync::atomic::Ordering::Relaxed) && t0.elapsed() < Duration::from_millis(400) {
+                        if let Ok(c) = Client::connect(&addr, 0, b'F') {
+                            v.push(c);
+                        }
+                        if r.chance(1, 3) {
+                            thread::sleep(Duration::from_micros(r.below(300)));
+                        }
+                    }
+                    v
+                }));
+            }
+            thread::sleep(Duration::from_millis(2));
+        }
         uev_mark("fault_begin");
         for (v, f) in &scn.victims {
             let i = inst[v];
@@ -326,6 +358,12 @@ pub fn run_scenario(scn: &Scn, seen: &mut Seen) -> Outcome {
         }
         // give panics woken through wakers time to unwind (a dying worker needs ~100 ms in debug builds)
         thread::sleep(Duration::from_millis(30));
+        hammer_stop.store(true, std::sync::atomic::Ordering::Relaxed);
+        for h in hammers {
+            if let Ok(v) = h.join() {
+                others.extend(v);
+            }
+        }
         if scn.close_victim_conns == CloseAt::AfterFault {
             close_victims(&mut held);
         }
@@ -451,6 +489,40 @@ pub fn run_scenario(scn: &Scn, seen: &mut Seen) -> Outcome {
                             monitor::tail(&log, 12)
                         ),
                     ));
+                }
+                // a worker that has died must be discovered (and replaced) as long as clients are waiting: if it is still
+                // in the handle list, believed saturated, nothing will ever be sent to it and nobody will notice
+                let mut died: BTreeSet<usize> = BTreeSet::new();
+                for r in &log {
+                    match &r.ev {
+                        Ev::WorkerDrop { worker } => {
+                            died.insert(*worker);
+                        }
+                        Ev::Interest { kind: "worker", idx } => {
+                            died.remove(idx);
+                        }
+                        _ => {}
+                    }
+                }
+                let undiscovered: Vec<usize> = died.iter().filter(|w| snap.handles.contains(w)).copied().collect();
+                if pending > 0 && spare == 0 && !undiscovered.is_empty() {
+                    // confirm that nothing moves any more
+                    let before = c.dispatch_total;
+                    thread::sleep(Duration::from_millis(100));
+                    let again = run.accept_barrier(false);
+                    let (c2, _) = monitor::shadow(&verif::log_since(0), scn.limit, true);
+                    if again.is_ok() && c2.dispatch_total == before {
+                        seen.dead_worker_states += 1;
+                        fails.push(fail(
+                            "C08:dead-worker-never-discovered",
+                            format!(
+                                "worker(s) {undiscovered:?} have died but are still in the accept thread's handle list, their counters {:?} make them look saturated (limit {}), {pending} connection(s) wait in the backlog and nothing is dispatched any more: the death is never discovered and no replacement is started; last events {:?}",
+                                snap.counters,
+                                scn.limit,
+                                monitor::tail(&log, 14)
+                            ),
+                        ));
+                    }
                 }
                 // availability bits must only be set for handles that exist
                 let live: BTreeSet<usize> = snap.handles.iter().copied().collect();
